@@ -50,9 +50,12 @@ class _Rng:
         return a
 
 
-def job_mask(d, n_cuts, n=2):
+def job_mask(d, n_cuts, n=2, mask_dtype="bool"):
+    """mask_dtype: how the 0/1 mask is handed over -- 'bool' array, 'int' array (accepted by validation, used by truthiness),
+    'list' of Python bools"""
     loader.install()
     res = _new()
+    mk = {"bool": lambda b: np.array(b), "int": lambda b: np.array(b).astype(int), "list": lambda b: [bool(x) for x in b]}[mask_dtype]
     for mask_bits in itertools.product([True, False], repeat=d):
         if not any(mask_bits):
             continue
@@ -60,7 +63,7 @@ def job_mask(d, n_cuts, n=2):
 
         def setup():
             core.CTX.strict = True
-            mdl, mod = _douglas(n_cuts, mask=np.array(mask_bits))
+            mdl, mod = _douglas(n_cuts, mask=mk(mask_bits))
             mdl.temperature = core.var("T", "+")
             X = harness.free_matrix(n, d, "x")
             mdl._init_params(_Rng(), X)
@@ -80,7 +83,7 @@ def job_mask(d, n_cuts, n=2):
             return P, outs
 
         ex = Explorer(max_paths=3000)
-        tagbase = f"mask/d{d}c{n_cuts}/{''.join('1' if b else '0' for b in mask_bits)}"
+        tagbase = f"mask/d{d}c{n_cuts}/{''.join('1' if b else '0' for b in mask_bits)}" + ("" if mask_dtype == "bool" else f"/{mask_dtype}")
         first = True
         for out, pc, trace in ex.run(body, setup):
             res["paths"] += 1
@@ -97,7 +100,7 @@ def job_mask(d, n_cuts, n=2):
                 res["obligations"].append({"name": tagbase + "/leaves == (n_cuts+1)^used, cut points only for used features", "verdict": "unsat" if okl else "sat", "how": "syntactic"})
                 if not okl:
                     res["violations"].append({"signature": f"{PROP}:mask:leaf-count", "what": "Douglas uses a wrong number of leaves / cut-point sets for the feature mask",
-                                              "replay": {"kind": "mask", "d": d, "n_cuts": n_cuts, "mask": list(mask_bits), "model": {}}})
+                                              "replay": {"kind": "mask", "d": d, "n_cuts": n_cuts, "mask": list(mask_bits), "mask_dtype": mask_dtype, "model": {}}})
                 first = False
             for f, P2 in outs:
                 same = all(to_rat(a).key() == to_rat(b).key() for a, b in zip(np.asarray(P).reshape(-1), np.asarray(P2).reshape(-1)))
@@ -106,7 +109,7 @@ def job_mask(d, n_cuts, n=2):
                 if not same:
                     v, model = harness.reachable(pc, timeout_s=8.0)
                     res["queries"] += 1
-                    rep = {"kind": "mask", "d": d, "n_cuts": n_cuts, "mask": list(mask_bits), "feature": f, "model": {k: str(x) for k, x in (model or {}).items() if "!" not in k}}
+                    rep = {"kind": "mask", "d": d, "n_cuts": n_cuts, "mask": list(mask_bits), "mask_dtype": mask_dtype, "feature": f, "model": {k: str(x) for k, x in (model or {}).items() if "!" not in k}}
                     if v == "sat" and replay(rep):
                         res["violations"].append({"signature": f"{PROP}:mask:not-inert", "what": f"a feature excluded by feature_mask changes the predictions", "replay": rep})
                     else:
@@ -314,7 +317,8 @@ def replay(rep, verbose=False):
     if kind == "mask":
         d, n_cuts, mask = rep["d"], rep["n_cuts"], np.array(rep["mask"])
         rng = np.random.RandomState(0)
-        mdl = mod.Douglas(n_clusters=2, n_cuts=n_cuts, feature_mask=mask, temperature=0.7)
+        given = {"bool": mask, "int": mask.astype(int), "list": [bool(x) for x in mask]}[rep.get("mask_dtype", "bool")]
+        mdl = mod.Douglas(n_clusters=2, n_cuts=n_cuts, feature_mask=given, temperature=0.7)
         X = rng.normal(size=(3, d))
         mdl._init_params(rng, X)
         if mdl.leaf_scores_.shape[0] != (n_cuts + 1) ** int(mask.sum()):
@@ -344,6 +348,9 @@ def jobs(tier):
     out = []
     for d, c in ([(2, 1), (3, 1), (2, 2)] if q else [(2, 1), (3, 1), (2, 2), (3, 2), (2, 3)]):
         out.append({"name": f"mask/d{d}c{c}", "target": "checks.c15:job_mask", "kwargs": dict(d=d, n_cuts=c), "timeout": 280 if q else 1800})
+        if (d, c) in ((3, 1), (2, 2)):
+            for dt in ("int", "list"):
+                out.append({"name": f"mask/d{d}c{c}/{dt}", "target": "checks.c15:job_mask", "kwargs": dict(d=d, n_cuts=c, mask_dtype=dt), "timeout": 280 if q else 1800})
     for d, c in ([(1, 1), (1, 2), (2, 1)] if q else [(1, 1), (1, 2), (2, 1), (2, 2), (1, 3)]):
         out.append({"name": f"bins/d{d}c{c}", "target": "checks.c15:job_bins", "kwargs": dict(d=d, n_cuts=c), "timeout": 280 if q else 1800})
     for c in ([1, 2, 3] if q else [1, 2, 3, 4]):
